@@ -84,6 +84,18 @@ class Item:
         return f"Item[{self.lb},{self.ub}]->{self.final}/{self.policy}"
 
 
+class EmptyItem(Item):
+    """A Bounded object that is container-like and empty (as an edit without sub-edits is): falsy through __len__."""
+    def __len__(self):
+        return 0
+
+
+class FalseItem(Item):
+    """A Bounded object with a truth value of its own (as a finished IterativeTighteningSearch has)."""
+    def __bool__(self):
+        return False
+
+
 def item_types():
     res = []
     for final in (0, 1, 2):
@@ -97,7 +109,8 @@ def item_types():
 
 
 def _mk(specs):
-    return [Item(*s, tag=i) for i, s in enumerate(specs)]
+    # spec: (lb, ub, final, policy[, unbounded first[, 'len' | 'bool' : a falsy object]])
+    return [{None: Item, 'len': EmptyItem, 'bool': FalseItem}[s[5] if len(s) > 5 else None](*s[:5], tag=i) for i, s in enumerate(specs)]
 
 
 def _cmp_check(specs, fail):
@@ -303,14 +316,17 @@ def bounded(tier, seed, repo_root):
     # items that report the unbounded Range() until their first tighten_bounds() (a sound, merely uninformative start)
     unb = [tuple(t + (rnd.random() < 0.6,) for t in c) for c in rnd.sample(colls, min(len(colls), 4000 if tier == 'quick' else 40000))]
     unb += [tuple(t + (rnd.random() < 0.5,) for t in c) for c in triples[:n3 // 10]]
-    jobs = colls + triples + quads + unb
+    # items that are falsy objects (empty container-like, or with __bool__): truthiness must never stand in for "is None"
+    fal = [tuple(t + (False, rnd.choice(['len', 'bool', None, 'len'])) for t in c) for c in rnd.sample(colls, min(len(colls), 3000 if tier == 'quick' else 30000))]
+    fal += [tuple(t + (rnd.random() < 0.3, rnd.choice(['len', 'bool', None])) for t in c) for c in triples[:n3 // 10]]
+    jobs = colls + triples + quads + unb + fal
     res = pmap(_check, jobs, repo_root, job_timeout=20, on_timeout=timeout_failure('C17'))
     fails = [f for fs in res for f in fs]
     return [{
         'name': 'C17.synthetic-bounded-items',
         'bound': f"{len(types)} item types (initial range within [0,4], final in 0..2, schedules {POLICIES}); all 1- and "
                  f"2-item collections ({len(colls)}), {len(triples)} seeded 3-item and {len(quads)} 4-item collections; "
-                 f"step budget {STEP_BUDGET} per item",
+                 f"step budget {STEP_BUDGET} per item; {len(unb)} collections with items that start unbounded, {len(fal)} with items that are falsy objects (__len__ == 0 / __bool__ False)",
         'evaluations': len(jobs) * 4, 'distinct_nontrivial': len(set(jobs)), 'exhaustive': False,
         'rule': 'collection of synthetic sound Bounded items -> IterativeTighteningSearch.search/bounds, bounds.sort, '
                 'bounds.min_bounded, bounds.make_distinct; non-trivial = distinct collection',
